@@ -66,6 +66,9 @@ def prepare(ch):
     prep.post = POST[ch.weighted([4, 1, 1])]
     prep.susp = [ch.draw(3) for _ in range(5)]
     prep.interrupt = ch.draw(4)
+    # the generator function is called with keyword arguments too, some with names the machinery uses itself
+    names = ("func", "self", "args", "kwds", "gen", "label")
+    prep.kwargs = {names[ch.draw(len(names))]: i for i in range(ch.draw(3))}
     return prep
 
 
@@ -80,8 +83,8 @@ def make_genfunc(prep, sim, log, injected):
         for _ in range(n):
             await sim.suspend(PAUSE, None, "generator")
 
-    async def genfunc(arg):
-        log.append(("start", arg))
+    async def genfunc(arg, /, **kw):
+        log.append(("start", arg, tuple(sorted(kw.items()))))
         await pause(susp[0])
         if prep.pre == "raise":
             raise GenError("pre")
@@ -152,7 +155,7 @@ def make_exc(outcome):
 
 async def use(factory, prep, sim, log, injected, res):
     try:
-        cm = factory("arg")
+        cm = factory("arg", **prep.kwargs)
         async with cm as value:
             log.append(("bound", value))
             for _ in range(prep.susp[3]):
@@ -190,7 +193,8 @@ def run_prepared(prep, st, ctx):
     sig = (prep.pre, prep.handler, prep.post, outcome)
 
     def describe():
-        return {"program": {"pre": prep.pre, "handler": prep.handler, "post": prep.post, "suspensions": prep.susp},
+        return {"program": {"pre": prep.pre, "handler": prep.handler, "post": prep.post, "suspensions": prep.susp,
+                            "kwargs": prep.kwargs},
                 "block_outcome": outcome, "asyncstdlib": {"log": [repr(e) for e in alog], "result": repr(ares)},
                 "contextlib": {"log": [repr(e) for e in rlog], "result": repr(rres)}}
 
@@ -237,7 +241,7 @@ def run_prepared(prep, st, ctx):
     out.fault_free = outcome == "normal"
     if outcome != "normal":
         out.faults["block_raises_" + outcome] = 1
-    out.shape = (prep.pre, prep.handler, prep.post, outcome, tuple(prep.susp))
+    out.shape = (prep.pre, prep.handler, prep.post, outcome, tuple(prep.susp), tuple(sorted(prep.kwargs)))
     if ctx.want_sample:
         out.sample = describe()
     if ctx.want_log:
